@@ -12,7 +12,8 @@ RULE = ("monitor A: generated spec graphs (registry points with filterable/raw f
         "datasources, datasources built on other specs, parsers on points/implementations, combiners on parsers) and "
         "random histories of 5-40 steps mixing add_filter(target, str|list|set, max_match) on any node - incl. invalid "
         "registrations - with get_filters(datasource, with_matches) look-ups; a model that only keeps the accepted "
-        "registrations predicts the filter set after every look-up. monitor B: lines with unique ids and filters over an "
+        "registrations predicts the filter set after every look-up (budgets: several registrations of one string on one "
+        "component give the largest). monitor B: lines with unique ids and filters over an "
         "alphabet with regex metacharacters, leading '-'/'--', blanks, quotes, backslashes and non-ASCII, budgets 1-5 or "
         "default, pushed through the host pre-filter (real grep child, file and command providers) + cleaner allow-list, "
         "the archive post-filter, Cleaner.clean_content(allowlist) and filters.apply_filters; one evaluation = one "
